@@ -117,9 +117,8 @@ def check_shadowed_attributes(prog, res, fns, rule='X8'):
         x = st.targets[0].id
         reads_attr = any(dotted(a) == 'self.' + x for a in ast.walk(st.value))
         if x not in first and dotted(st.value) == 'self.' + x:
-          first[x] = st.lineno
-        elif x in first and st.lineno > first[x] and (
-            reads_attr or True):
+          first[x] = (st.lineno, st.col_offset)
+        elif x in first and (st.lineno, st.col_offset) > first[x]:
           reassigned.add(x)
     for x in sorted(reassigned):
       # statements that define the local or test the attribute to do so
@@ -139,7 +138,7 @@ def check_shadowed_attributes(prog, res, fns, rule='X8'):
         args = list(c.args) + [k.value for k in c.keywords]
         for a in args:
           if dotted(a) == 'self.' + x and id(a) not in defining and \
-              a.lineno > first[x]:
+              (a.lineno, a.col_offset) > first[x]:
             n += 1
             res.violation(rule, '%s|self.%s@%s' % (
                 fn.qualname, x, norm_text(c.func)[:30]), fn.loc(a),
@@ -148,7 +147,7 @@ def check_shadowed_attributes(prog, res, fns, rule='X8'):
                           'uses the local elsewhere: this site gets the raw '
                           'value (a list where tuples are expected after a '
                           'config round trip)' % (
-                              x, norm_text(c.func)[:30], x, first[x]))
+                              x, norm_text(c.func)[:30], x, first[x][0]))
       n += 1
       res.ok(rule, '%s|%s' % (fn.qualname, x), fn.loc(),
              'the local `%s` shadows self.%s after its normalisation; no '
